@@ -102,19 +102,7 @@ func schemaSnapshot(s *jsonapi.Schema) map[string]string {
 	var rec, am, rm []string
 	for i := range s.Types {
 		t := &s.Types[i]
-		// what the type creates is part of the type: a fresh resource, by its readable content
-		fresh := ""
-		if t.NewFunc != nil && t.Name != "t10" { // (t10's struct stays unwrapped until the requests come)
-			r := t.New()
-			fresh = fmt.Sprintf("id=%q", r.Get("id"))
-			for _, f := range sortedKeys(r.Attrs()) {
-				fresh += fmt.Sprintf(",%s=%#v", f, derefAny(r.Get(f)))
-			}
-			for _, f := range sortedKeys(r.Rels()) {
-				fresh += fmt.Sprintf(",%s=%#v", f, r.Get(f))
-			}
-		}
-		rec = append(rec, fmt.Sprintf("%s/%x/%s", t.Name, reflect.ValueOf(t.NewFunc).Pointer(), fresh))
+		rec = append(rec, fmt.Sprintf("%s/%x", t.Name, reflect.ValueOf(t.NewFunc).Pointer()))
 		am = append(am, fmt.Sprintf("%x:%v", reflect.ValueOf(t.Attrs).Pointer(), sortedMapString(t.Attrs)))
 		rm = append(rm, fmt.Sprintf("%x:%v", reflect.ValueOf(t.Rels).Pointer(), sortedMapString(t.Rels)))
 	}
@@ -143,6 +131,30 @@ func schemaSnapshot(s *jsonapi.Schema) map[string]string {
 	}
 	out["RelsCache"] = strings.Join(cache, ";")
 	return out
+}
+
+// freshProbe: what every type creates is part of the type - a fresh resource, by its readable
+// content.  Taken only AFTER the requests (creating a resource before them would do the lazy
+// initialisations on their behalf) and compared with the same probe of a schema built the same way
+// that served nobody.
+func freshProbe(s *jsonapi.Schema) string {
+	var out []string
+	for i := range s.Types {
+		t := &s.Types[i]
+		if t.NewFunc == nil || t.Name == "t10" { // (t10 differs from one schema to the next by construction)
+			continue
+		}
+		r := t.New()
+		fresh := fmt.Sprintf("%s:id=%q", t.Name, r.Get("id"))
+		for _, f := range sortedKeys(r.Attrs()) {
+			fresh += fmt.Sprintf(",%s=%#v", f, derefAny(r.Get(f)))
+		}
+		for _, f := range sortedKeys(r.Rels()) {
+			fresh += fmt.Sprintf(",%s=%#v", f, r.Get(f))
+		}
+		out = append(out, fresh)
+	}
+	return strings.Join(out, ";")
 }
 
 // derefAny: the value behind a pointer (the address itself differs from one resource to the next)
@@ -299,6 +311,9 @@ func runFootprint(op string) hEvent {
 		ev.Ret = "panic"
 	}
 	after := schemaSnapshot(s)
+	if freshProbe(s) != freshProbe(sharedSchema()) {
+		after["TypeRec"] += " (what a type creates has changed)"
+	}
 	for _, loc := range sortedKeys(before) {
 		if before[loc] != after[loc] {
 			ev.Writes = append(ev.Writes, loc)
@@ -352,7 +367,7 @@ func sharedChild(path string) {
 		before := schemaSnapshot(s)
 		replaySched(s, sc)
 		after := schemaSnapshot(s)
-		if !reflect.DeepEqual(before, after) {
+		if !reflect.DeepEqual(before, after) || freshProbe(s) != freshProbe(sharedSchema()) {
 			fmt.Fprintf(os.Stderr, "\nCHANGED %d\n", i)
 		}
 	}
